@@ -63,4 +63,8 @@ func init() {
 	pKey := GetTypeKey(syscall.Errno(0))
 	RegisterLeafEncoder(pKey, encodeErrno)
 	RegisterLeafDecoder(pKey, decodeErrno)
+	// An errno received from another platform travels on as an
+	// OpaqueErrno (see encodeOpaqueErrno, same payload): decode it too, or
+	// it loses its predicates (IsNotExist etc.) on the second hop.
+	RegisterLeafDecoder(GetTypeKey(&OpaqueErrno{}), decodeErrno)
 }
